@@ -88,7 +88,7 @@ def jobs(tier, seed):
         out.append({"kind": f"list:{plant}:{ctx_mode}", "terms": terms, "ctx": cx, "ctx_shared_const": ctx_mode == "shared", "explicit_none": ctx_mode == "none" and rng.random() < 0.5})
     # contexts made of variable-free rows only (0 <= c): what is left of an assumption that was refined to a constant
     # constraint; with an empty or variable-free list no variable remains at all
-    for terms, cx in (([], [{}]), ([{}], [{}]), ([], [{}, {}]), ([{"x": 1}], [{}]), ([{}, {"x": 1}], [{}]), ([{}], [])):
+    for terms, cx in (([], [{}]), ([{}], [{}]), ([], [{}, {}]), ([{"x": 1}], [{}]), ([{}, {"x": 1}], [{}]), ([{}], []), ([{}, {}], []), ([{}, {}], [{}])):
         out.append({"kind": "list:free-context:free", "terms": terms, "ctx": cx, "ctx_shared_const": False, "explicit_none": False})
     nc = 80 if tier == "quick" else 2000
     for i in range(nc):
